@@ -253,7 +253,18 @@ def run_unit(name, tier='quick', use_cache=True, extra_args=(), log=print, degra
                     res['diags'] = keep
         res['cached'] = False
         if cfg.get('compile'):
-            if res.get('rc') == 0 and os.path.exists(binpath): open(binpath + '.key', 'w').write(key)
+            if res.get('rc') != 0 and not res.get('hard') and not asm.problems:
+                # obligations failed but the text compiles: the enumeration driver is still needed (it is what finds the failing input), so it is
+                # built without verification; the failed obligations stay failed
+                try:
+                    if os.path.exists(binpath): os.remove(binpath)
+                    subprocess.run([VERUS, path, '--no-verify', '--compile', '-o', binpath, '-C', 'opt-level=2'], stdout=subprocess.PIPE, stderr=subprocess.PIPE, timeout=900)
+                    res['driver_built_without_verification'] = os.path.exists(binpath)
+                except Exception:
+                    pass
+                if os.path.exists(binpath): open(binpath + '.key', 'w').write(key)
+                elif os.path.exists(binpath + '.key'): os.remove(binpath + '.key')
+            elif res.get('rc') == 0 and os.path.exists(binpath): open(binpath + '.key', 'w').write(key)
             elif os.path.exists(binpath + '.key'): os.remove(binpath + '.key')
         json.dump(res, open(cpath, 'w'))
     # attribute diagnostics
